@@ -23,6 +23,40 @@ func main() {
 		cleanupScratch()
 		os.Exit(code)
 	}
+	if len(os.Args) > 1 && os.Args[1] == "names" {
+		// names [repo]: receiver and parameter names of every function under contract, as the contract files see them now
+		repo := "/repo"
+		if len(os.Args) > 2 {
+			repo = os.Args[2]
+		}
+		w, err := LoadWorld(repo)
+		if err != nil {
+			fmt.Fprintln(os.Stderr, "load:", err)
+			os.Exit(2)
+		}
+		for _, pi := range w.Pkgs {
+			for k, fi := range pi.Funcs {
+				if fi.Spec == nil || fi.Decl == nil {
+					continue
+				}
+				rn := ""
+				if fi.Decl.Recv != nil && len(fi.Decl.Recv.List) > 0 && len(fi.Decl.Recv.List[0].Names) > 0 {
+					rn = fi.Decl.Recv.List[0].Names[0].Name
+				}
+				var ps []string
+				for _, f := range fi.Decl.Type.Params.List {
+					if len(f.Names) == 0 {
+						ps = append(ps, "_")
+					}
+					for _, n := range f.Names {
+						ps = append(ps, n.Name)
+					}
+				}
+				fmt.Printf("NAMES\t%s\t%s\t%s\t%s\n", fi.Spec.File, k, rn, strings.Join(ps, ","))
+			}
+		}
+		os.Exit(0)
+	}
 	repo := flag.String("repo", "/repo", "repository root")
 	fn := flag.String("func", "", "only this function key (debug)")
 	pkgName := flag.String("pkg", "dbft", "package name")
